@@ -18,6 +18,7 @@ import (
 	"net"
 	"net/http"
 	"net/textproto"
+	"net/url"
 	"regexp"
 	"strings"
 
@@ -395,6 +396,14 @@ func (c *comp) Run(h *hlib.History) ([]hlib.Mon, bool) {
 				hd[x.name] = append([]string(nil), x.vals...)
 			}
 			req := &http.Request{Method: http.MethodGet, RemoteAddr: r.addr, Host: r.host, Header: hd}
+			// the request URL is not an input of any variable: origin-form (no authority), or an authority that differs
+			// from Host, as after a balancer pointed the URL at the chosen backend
+			switch step % 3 {
+			case 1:
+				req.URL = &url.URL{Path: "/p", RawQuery: "q=1"}
+			case 2:
+				req.URL = &url.URL{Scheme: "http", Host: fmt.Sprintf("10.0.0.%d:8080", step%250), Path: "/p"}
+			}
 			tok, amount, xerr := ex.Extract(req)
 			if xerr != nil {
 				h.Obs = append(h.Obs, []int64{1})
